@@ -179,7 +179,7 @@ def full_warm(ctx):
 def gen_history(ctx, rng, tier, faults, force=None):
     force = force or {}
     g = Gen(rng, ctx)
-    mix = force.get('mix') or wchoice(rng, {'geo': 40, 'all': 38, 'hier': 10, 'forward': 4, 'boundary': 4, 'inverse': 4})
+    mix = force.get('mix') or wchoice(rng, {'geo': 38, 'all': 36, 'hier': 9, 'coarse': 6, 'forward': 4, 'boundary': 4, 'inverse': 3})
     L = rng.randint(3, 25) if tier == 'quick' else rng.randint(3, 60)
     start = force.get('start') or wchoice(rng, {'cold': 50, 'warm': 38, 'full': 12 if tier == 'thorough' else 5})
     warm = []
@@ -200,10 +200,17 @@ def gen_history(ctx, rng, tier, faults, force=None):
         weights = {'call': 58, 'repeat': 24, 'alias': 12, 'recycle': 6}
     ops = []
     callish = []            # ids of ops that executed a call
+    follow = None           # (ref) the caller just edited an object of call `ref`: usually it asks the same thing again
     for i in range(L):
         kind = wchoice(rng, weights)
         if kind != 'call' and kind != 'bad_call' and kind != 'interrupt' and not callish:
             kind = 'call'
+        if follow is not None and rng.random() < 0.6 and 'f' in ops[follow]:
+            ops.append({'op': 'repeat', 'id': i, 'f': ops[follow]['f'], 'a': copy.deepcopy(ops[follow]['a'])})
+            callish.append(i)
+            follow = None
+            continue
+        follow = None
         op = {'op': kind, 'id': i}
         if script and (kind in ('call', 'repeat', 'alias', 'recycle') and rng.random() < 0.8):
             kind = op['op'] = 'call'
@@ -246,7 +253,8 @@ def gen_history(ctx, rng, tier, faults, force=None):
         elif kind == 'alias':
             op['ref'] = rng.choice(callish)
         elif kind in ('mutate_result', 'mutate_arg'):
-            op['ref'] = rng.choice(callish)
+            op['ref'] = rng.choice(callish[-3:]) if rng.random() < 0.6 else rng.choice(callish)
+            follow = op['ref']
             op['how'] = rng.choice(MUT_HOW)
             op['val'] = rng.choice([7, 5, -1, (1 << 63) | 1, 3])
         elif kind == 'interrupt':
